@@ -156,6 +156,9 @@ def spec_ranges(case):
 def gen_fitness_case(rng, multi=None, weights=None, same_times=False):
     while True:
         c = _gen_fitness_case(rng, multi, weights, same_times)
+        # integer-dtype target files (what detectors deliver: uint16 frames) when the data allow it
+        if all(v is not None for t in c["targets"] for v in t) and rng.random() < 0.5:
+            c["target_dtype"] = rng.choice(["uint8", "uint16", "uint32", "int32"])
         # reduced chi2 needs a positive number of degrees of freedom for every target
         if all(expected_fitness(c, x) is not None for x in c["xs"]):
             return c
@@ -191,7 +194,7 @@ def _gen_fitness_case(rng, multi, weights, same_times):
             flat[rng.randrange(n)] = None  # NaN in the target
         targets.append(flat)
     wkind = weights if weights is not None else rng.choice(["none", "none", "list", "file"])
-    wpool = [1.0, 2.0, 4.0, 0.5, 3.0] if func != "chi2" else [1.0, 2.0, 4.0, 0.5]
+    wpool = [1.0, 2.0, 4.0, 0.5, 3.0, 0.25, 1.75] if func != "chi2" else [1.0, 2.0, 4.0, 0.5, 0.25, 1.75]
     if wkind == "list":
         wts = [rng.choice(wpool) for _ in range(npairs)]
         if npairs > 1 and len(set(wts)) == 1:
@@ -203,7 +206,10 @@ def _gen_fitness_case(rng, multi, weights, same_times):
     free = rng.randrange(0, 2) if func == "chi2" else 0
     return {"stream": "fitness", "multi": multi, "times": ntimes, "det": [rows, cols], "target_shape": tshape,
             "targets": targets, "target_range": target_range, "result_range": result_range,
-            "offsets": [float(rng.randrange(0, 8)) for _ in range(npairs)] if (npairs > 1 or rng.random() < 0.5) else None,
+            "offsets": [float(rng.randrange(0, 8)) for _ in range(npairs)] if (rng.random() < 0.7 if npairs > 1 else rng.random() < 0.5) else None,
+            # per-target input arguments addressing a DETECTOR field (each frame taken at its own temperature)
+            "temps": ([float(200 + d) for d in rng.sample(range(0, 13), npairs)] if (npairs > 1 and rng.random() < 0.5) else None),
+            "target_dtype": "float64",
             "weights_kind": wkind, "weights": wts, "func": func, "free": free,
             "result_type": rng.choice(["pixel", "signal", "image"]),
             "xs": [[float(rng.randrange(0, 9)), float(rng.randrange(0, 5)), float(rng.randrange(0, 5))] for _ in range(2)]}
@@ -256,7 +262,7 @@ def _variables(single):
 def _pipeline(case=None):
     import pyx
 
-    groups = {GROUP: [{"name": MODEL, "func": "probes.cal_probe", "arguments": {"a": 0.0, "v": [0.0, 0.0], "off": 0.0}}]}
+    groups = {GROUP: [{"name": MODEL, "func": "probes.cal_probe_temp", "arguments": {"a": 0.0, "v": [0.0, 0.0], "off": 0.0}}]}
     if case is not None and case.get("stochastic"):
         # a random model WITHOUT its own seed: reproducible only through the declared pipeline seed
         groups["charge_measurement"] = [{"name": "noise", "func": "probes.noisy_to_image", "arguments": {"scale": 2.0}}]
@@ -269,6 +275,7 @@ def _write_targets(case, tmp):
     paths = []
     for i, flat in enumerate(case.get("targets") or [[0.0] * _size(case["target_shape"])]):
         arr = np.array([np.nan if v is None else v for v in flat], dtype=float).reshape(case["target_shape"])
+        arr = arr.astype(case.get("target_dtype", "float64"))
         np.save(f"{tmp}/target{i}.npy", arr)
         paths.append(f"{tmp}/target{i}.npy")
     wpaths = None
@@ -303,9 +310,24 @@ def _fitness_function(case):
 def _input_arguments(case):
     from pyxel.observation import ParameterValues
 
-    if not case.get("offsets"):
-        return None
-    return [ParameterValues(key=KEY + "off", values=list(case["offsets"]))]
+    args = []
+    if case.get("offsets"):
+        args.append(ParameterValues(key=KEY + "off", values=list(case["offsets"])))
+    if case.get("temps"):
+        args.append(ParameterValues(key="detector.environment.temperature", values=list(case["temps"])))
+    return args or None
+
+
+def pair_inputs(case):
+    """(off, temperature) of every processor, as declared"""
+    offs, temps = case.get("offsets"), case.get("temps")
+    n = min(len(x) for x in (offs, temps) if x) if (offs or temps) else 1
+    return [((offs[i] if offs else 0.0), (temps[i] if temps else 200.0)) for i in range(n)]
+
+
+def pair_shifts(case):
+    """what the inputs of processor i add to every simulated pixel (the probe adds `off` and `temperature - 200`)"""
+    return [off + (t - 200.0) for off, t in pair_inputs(case)]
 
 
 def _problem(case, tmp, single=False):
@@ -447,7 +469,7 @@ def run_calibration(case):
             return out
         # the declared figure of merit evaluated on the RETURNED simulated data (one value per island)
         dims = dims_of(case)
-        offs = case["offsets"] or [0.0]
+        offs = pair_shifts(case)
         returned = []
         for isl in range(sim.shape[0]):
             total = Fraction(0)
@@ -465,14 +487,14 @@ def run_calibration(case):
         for isl, params in enumerate(out["champion_parameters"]):
             p = params[-1]
             per_proc = []
-            for off in (case["offsets"] or [0.0]):
+            for off, temp in pair_inputs(case):
                 pipe = _pipeline(case)
                 args = pipe.charge_collection.models[0].arguments
                 args["a"] = p[0]
                 if not single:
                     args["v"] = [p[1], p[2]]
                 args["off"] = off
-                res = pyxel.run_mode(Exposure(readout=_readout(case), pipeline_seed=case.get("pipeline_seed")), pyx.make_detector("CCD", *case["det"]), pipe)
+                res = pyxel.run_mode(Exposure(readout=_readout(case), pipeline_seed=case.get("pipeline_seed")), pyx.make_detector("CCD", *case["det"], environment={"temperature": temp}), pipe)
                 per_proc.append(np.asarray(res[rt].values, dtype=float))
             indep.append(per_proc)
         indep = np.array(indep)  # island, processor, time, y, x
@@ -538,7 +560,7 @@ def fom(func, free, sim, tgt, w):
 
 def expected_fitness(case, x):
     dims = dims_of(case)
-    offs = case["offsets"] or [0.0]
+    offs = pair_shifts(case)
     total = Fraction(0)
     n = min(len(offs), len(case["targets"]))
     for i in range(n):
@@ -630,7 +652,7 @@ def q(v):
 
 
 def lean_fitness_request(case, x):
-    offs = case["offsets"] or [0.0]
+    offs = pair_shifts(case)
     n = min(len(offs), len(case["targets"]))
     dims = dims_of(case)
     sims = [[[[q(v) for v in row] for row in plane] for plane in expected_sim(case, x, offs[i])] for i in range(n)]
@@ -691,6 +713,9 @@ def body(ck: common.Check):
         ck.count("pairs=%d" % len(case["targets"]))
         ck.count("multi_readout", int(case["multi"]))
         ck.count("shifted_ranges", int(case["target_range"] != case["result_range"][-4:]))
+        ck.count("target_dtype=" + case.get("target_dtype", "float64"))
+        ck.count("detector_field_inputs", int(bool(case.get("temps"))))
+        ck.count("fractional_scalar_weight_on_integer_target", int(case["weights_kind"] == "list" and case.get("target_dtype", "float64") != "float64" and any(w != int(w) for w in case["weights"])))
         pv = predicate_fitness(case, impl)
         if pv:
             ck.violation(pv[0], pv[1], {"case": case, "impl": impl})
@@ -728,7 +753,7 @@ def body(ck: common.Check):
                 ck.disagreement("run", case, [float(b) for b in best], [float(m) for m in model])
     ck.rule = ("ranges: targets 2-7 x 2-7 (x 1-4 readouts), detector same or larger, range pairs equal / shifted / unequal / out of bounds / "
                "wild (None, negative, beyond the size) / undeclared, 4- and 6-value result ranges, + the two documented end-point patterns; "
-               "fitness: 1-3 target/input pairs, integer data with NaNs, equal and shifted ranges, weights none / per-target list / files, "
+               "fitness: 1-3 target/input pairs (input arguments over a model argument and/or the detector field environment.temperature, own value per target), target files of dtype float64 / uint8 / uint16 / uint32 / int32, weights incl. fractional ones (0.25, 0.5, 1.75), integer data with NaNs, equal and shifted ranges, weights none / per-target list / files, "
                "abs / squared / reduced chi2, single and multi readout, pixel / signal / image; run: sade / sga / nlopt, 1-2 islands, 3 evolutions, "
                "+ nlopt with selection worst / random and replacement best, 3-6 evolutions, maxeval 3-6 (population best != champion): champion "
                "monotone per island and best champion = best fitness evaluated so far after every evolution; "
